@@ -553,6 +553,17 @@ def c18(tier):
                 if cs:
                     res.samples.append(cs[0])
                     break
+    # the dynamic preferred solver (an anchor of this property) works on the whole framework with one incremental SAT solver: termination of
+    # every skeptical query along update histories (a query that needs more than 400 SAT calls on <= 6 arguments is not going to terminate)
+    hfile, nh = store_histories(res, 3)
+    bfile, nb = export_replay(res, "MCBatch.tla", open(os.path.join(vlib.SPEC, "MCBatch.cfg")).read(), "MCBatch")
+    for name, extra in (("dyn_hist3", ["--hists", hfile]), ("dyn_batches", ["--hists", bfile, "--labels", 2, "--stride", 2 if thorough else 8]),
+                        ("dyn_walks", ["--walks", 2000 if thorough else 400, "--len", 60]), ("dyn_longwalks", ["--walks", 200 if thorough else 40, "--len", 300])):
+        out = os.path.join(res.wd, name + ".ndjson")
+        vlib.vh(["dynamic", "--mode", "c08", "--kinds", "pr,dummypr", "--oracle", "real", "--seed", seed(), "--out", out, "--threads", vlib.NCPU] + extra)
+        dsegs = vlib.segments(out, openers=("reset",))
+        t1, st = vlib.judge("TraceDynamic.tla", dsegs, res.wd, name, shards=8)
+        res.add_judge(name, t1, st, only_props={"C18"})
     res.nontrivial = len(nt)
     res.rule = ("one 'cc' event per distinct (query kind, component, number of SAT calls, sequence of decoded candidate sets) over all explored "
                 "SAT-model schedules, calls summed per query and per component over the solver instances that worked on it; "
@@ -938,7 +949,10 @@ def c19(tier):
     plans = [("ref3", sets["ref3"]), ("iso4", afgen.iso4_sample(seed(), 100000 if thorough else 1500)),
              ("shaped", [a for a in sets["shaped"] if a["n"] <= 10]), ("rand", rnd),
              ("groundedmix", afgen.grounded_mix(seed(), 20000 if thorough else 4000)),
-             ("padded", [dict(a, tag=a["tag"] + "#pad") for a in (afgen.grounded_mix(seed() + 1, 400 if thorough else 120, 4, 8) + [x for x in rnd if 2 <= x["n"] <= 8][:120])])]
+             ("padded", [dict(a, tag=a["tag"] + "#pad") for a in (afgen.grounded_mix(seed() + 1, 400 if thorough else 120, 4, 8) + [x for x in rnd if 2 <= x["n"] <= 8][:120])]),
+             # 20-500 arguments, judged through the grounded reduct: 64-200 unattacked arguments spread over the ids, joint defences; sparse /
+             # layered / gadget-soup frameworks whose undecided part has small components
+             ("large", afgen.many_sources(seed() + 2, 120 if thorough else 36) + [dict(a, tag=a["tag"] + "#big") for a in sets["reducible"]])]
     nt = set()
     for name, afs in plans:
         afile = os.path.join(res.wd, name + ".afs.jsonl")
@@ -1038,11 +1052,12 @@ def c05(tier):
     rng.shuffle(pool)
     answers = [i for i in invs if i["file"] == "good" and i["pclass"] == "valid" and i["enc"] != "invalid" and i["argc"] == ("absent" if i["kind"] == "SE" else "valid")]
     others = [i for i in invs if i not in answers]
+    binans = [i for i in invs if i["file"] == "bincomment" and i["pclass"] == "valid" and i["enc"] != "invalid" and i["argc"] == ("absent" if i["kind"] == "SE" else "valid")]
     if thorough:
-        todo = invs + answers * 6
+        todo = invs + answers * 6 + binans * 6
         nafs = 700
     else:
-        todo = rng.sample(others, 3000) + answers * 16
+        todo = rng.sample(others, 3000) + answers * 16 + binans * 4
         nafs = 450
     afs = pool[:nafs]
     per_af = len(todo) // len(afs) + 1
